@@ -726,6 +726,8 @@ fn main() {
             let mut rwf: BTreeMap<&'static str, u64> = BTreeMap::new();
             let mut steps = 0u64;
             let mut samples = vec![];
+            let trace_all = std::env::var_os("VERIF_TRACE_ALL").is_some();
+            let mut text_hash: u64 = 0xcbf29ce484222325;
             if fam == "failinject" {
                 // every run is one child process that must not survive the failure
                 let exe = std::env::current_exe().unwrap();
@@ -753,8 +755,15 @@ fn main() {
                 steps = died;
             } else {
                 for idx in start..start + count {
-                    let want_trace = idx < start + 2;
+                    let want_trace = trace_all || idx < start + 2;
                     let r = run_one(&fam, seed, idx, Choices::seeded(run_seed(seed, &fam, idx)), want_trace, None);
+                    if trace_all {
+                        for l in &r.trace {
+                            for b in l.bytes() {
+                                text_hash = (text_hash ^ b as u64).wrapping_mul(0x100000001b3);
+                            }
+                        }
+                    }
                     hashes.push(r.hash);
                     if r.steps >= 2 {
                         nontrivial.push(r.hash);
@@ -764,7 +773,7 @@ fn main() {
                         *faults.entry(k).or_default() += v;
                         *rwf.entry(k).or_default() += 1;
                     }
-                    if want_trace {
+                    if want_trace && samples.len() < 2 {
                         let l: Vec<String> = r.trace.iter().take(40).map(|l| jstr(l)).collect();
                         samples.push(format!("{{\"run_index\":{idx},\"trace\":[{}]}}", l.join(",")));
                     }
@@ -786,6 +795,9 @@ fn main() {
             let f2: Vec<String> = rwf.iter().map(|(k, v)| format!("\"{k}\":{v}")).collect();
             let dh: BTreeSet<u64> = hashes.iter().copied().collect();
             let dn: BTreeSet<u64> = nontrivial.iter().copied().collect();
+            if trace_all {
+                println!("TRACE-TEXT-HASH {text_hash:016x}");
+            }
             println!(
                 "SUMMARY {{\"family\":\"{fam}\",\"feature_set\":\"native\",\"start\":{start},\"runs\":{count},\"steps\":{steps},\"callbacks\":0,\"distinct_traces\":{},\"distinct_nontrivial\":{},\"states\":0,\"leak_check_skipped\":0,\"wall_s\":{:.3},\"faults\":{{{}}},\"runs_with_fault\":{{{}}},\"samples\":[{}]}}",
                 dh.len(),
